@@ -22,7 +22,7 @@ TInit == l = 1 /\ M = Init0 /\ nfail = 0 /\ lag = [done |-> {}, gor |-> 0]
 
 Step(e) ==
     LET \* a write through a handle whose cached collection may be stale is unconstrained; if it succeeded it is a write
-        a == [force |-> e.act.kind = "Write" /\ e.res = "ok"] @@ e.act
+        a == [force |-> e.act.kind \in {"Write", "PutDDoc"} /\ e.res = "ok"] @@ e.act
         want == Expect(M, a)
         N == Apply(M, a)
         recv == Receivers(M, a)
